@@ -1,13 +1,12 @@
 #!/bin/bash
-# processes /tmp/seedrun/queue (lines: <seed-dir> <name> <pid> [<pid>...]) one at a time
+# worker: pops lines "<seed-dir> <name> <pid> [<pid>...]" from /tmp/seedrun/queue (flock); several may run
 Q=/tmp/seedrun/queue; mkdir -p /tmp/seedrun/results; touch $Q
 while true; do
-  line=$(head -1 $Q)
+  line=$(flock $Q.lock bash -c "head -1 $Q; sed -i 1d $Q")
   if [ -z "$line" ]; then sleep 20; continue; fi
-  sed -i 1d $Q
   set -- $line
   /verif/tools/seed_run.sh "$@"
   for f in /tmp/seedrun/results/$2/out_*.txt; do
-    echo "$2 $(basename $f .txt | sed s/out_//) $(grep -c '^VIOLATION' $f) violations; $(tail -2 $f | tr '\n' ' ')" >> /tmp/seedrun/summary.txt
+    echo "$2 $(basename $f .txt | sed s/out_//) $(grep -c '^VIOLATION' $f) violations; $(tail -n 2 $f | tr '\n' ' ')" >> /tmp/seedrun/summary.txt
   done
 done
